@@ -112,6 +112,10 @@ def run_one(s):
             cid, log = op["c"], []
             logs[cid] = log
             g = lambda t: op["g"][0] * t + op["g"][1]
+            if op.get("gt"):          # g as a table: ONE tensor object per scenario with the values at the (shared) rows, handed to every condition
+                if "gt" not in models:
+                    models["gt"] = torch.tensor([[float(op["g"][0] * r[1] + op["g"][1])] for r in op["rows"]], dtype=torch.float64)
+                g = models["gt"]
 
             def pts_sampler():
                 if op["kind"] in ("pidon",):
